@@ -23,16 +23,17 @@ Definition chunkDurOf (segDurMS atoMS ts : Z) : Z := Z.quot ((segDurMS - atoMS) 
 
 Definition set_dt (s : sample) (dt : Z) : sample := {| s_dur := s_dur s; s_tag := s_tag s; s_dt := dt |}.
 
-(** The [for i := range fs] loop and the trailing [if thisChunkDur > 0].
+(** The [for i := range fs] loop and the trailing [if SampleCount() > 0].
     [cur]/[styp] are the chunk under construction, [nr] = chunkNr, [this] = thisChunkDur,
     [total] = totalDur, [dt] = sampleDecodeTime. *)
 Fixpoint chunk_loop (C seq : Z) (fs : list sample) (cur : list sample) (styp : bool)
          (nr this total dt : Z) : list chunk :=
   match fs with
   | [] =>
-    if this >? 0
-    then [ {| c_styp := styp; c_seq := seq; c_samples := cur; c_dur := u64 C |} ]
-    else []
+    match cur with                      (* ch.frag...Trun.SampleCount() > 0 (repair 14871fa; before: thisChunkDur > 0) *)
+    | [] => []
+    | _ :: _ => [ {| c_styp := styp; c_seq := seq; c_samples := cur; c_dur := u64 C |} ]
+    end
   | s :: rest =>
     let cur' := cur ++ [set_dt s dt] in
     let dt' := u64 (dt + s_dur s) in
